@@ -40,6 +40,9 @@ type vpOut struct {
 	// with As[...] godi registers the service under the interface types only: the concrete type of
 	// output 0 is instantiated but is not an identity
 	hidden bool
+	// the identity was taken out of the collection again (Remove / RemoveKeyed) before Build: the
+	// constructor still produces a value for it, godi neither stores nor owns that value
+	removed bool
 }
 
 type vpDep struct {
@@ -50,19 +53,20 @@ type vpDep struct {
 }
 
 type vpReg struct {
-	idx     int // constructor id = idx+1
-	life    Lifetime
-	form    string // plain | alias | multi | ro | inst | void
-	outs    []vpOut
-	deps    []vpDep
-	useIn   bool
-	withErr bool
-	inst    *vpBase
-	fn      any
-	opts    []AddOption
-	descLo  int // range of allDescriptors indices this registration produced
-	descHi  int
-	added   bool
+	idx      int // constructor id = idx+1
+	life     Lifetime
+	form     string // plain | alias | multi | ro | inst | void
+	outs     []vpOut
+	deps     []vpDep
+	useIn    bool
+	withErr  bool
+	inst     *vpBase
+	fn       any
+	opts     []AddOption
+	descLo   int // range of allDescriptors indices this registration produced
+	descHi   int
+	added    bool
+	descPtrs []*Descriptor // the descriptors this registration produced (some may have been removed again)
 }
 
 type vpClose struct {
@@ -507,6 +511,11 @@ func (w *vpWorld) makeConstructor(r *vpReg) any {
 			}
 			obj := reflect.New(slotType(o.slot).Elem())
 			b := obj.Interface().(vpObj).base()
+			if o.removed { // produced, but not an identity any more: godi drops it, it is nobody's instance
+				*b = vpBase{Ctor: ctor, Inv: inv, Out: k, Inst: 0, Life: r.life, ScopeN: scN, w: w}
+				objs = append(objs, obj)
+				continue
+			}
 			w.nextInst++
 			*b = vpBase{Ctor: ctor, Inv: inv, Out: k, Inst: w.nextInst, Life: r.life, ScopeN: scN, w: w}
 			w.all = append(w.all, b)
@@ -764,6 +773,97 @@ func (r *vpRun) newWorld(rng *rand.Rand) *vpWorld {
 	return w
 }
 
+// removeAndReplace: in some scenarios one identity is taken out of the collection again (Remove / RemoveKeyed)
+// before Build — one output of a multi-output registration, one alias, or a whole single-output
+// registration — and, half of the time, registered anew with a different constructor (the documented
+// "replace by a mock" recipe). The model sees the collection's final descriptors; the monitors use the
+// harness's own bookkeeping (`removed` outputs are no identities).
+func (r *vpRun) removeAndReplace(w *vpWorld) {
+	rng := w.rng
+	if rng.Intn(4) != 0 {
+		return
+	}
+	type cand struct {
+		reg *vpReg
+		k   int
+	}
+	var cands []cand
+	for _, reg := range w.regs {
+		if !reg.added || reg.form == "inst" || reg.form == "void" {
+			continue
+		}
+		if _, faulty := w.nbeh[[2]int{reg.idx + 1, 1}]; faulty {
+			continue
+		}
+		skip := false
+		for inv := 1; inv <= 3; inv++ {
+			if _, ok := w.nbeh[[2]int{reg.idx + 1, inv}]; ok {
+				skip = true // field indices of nil-field faults refer to the original field list
+			}
+		}
+		if skip {
+			continue
+		}
+		for k, o := range reg.outs {
+			if !o.hidden && !o.removed && o.group == "" { // group members cannot be removed
+				cands = append(cands, cand{reg, k})
+			}
+		}
+	}
+	if len(cands) == 0 {
+		return
+	}
+	c := cands[rng.Intn(len(cands))]
+	o := &c.reg.outs[c.k]
+	if o.name == "" {
+		w.coll.Remove(o.typ)
+	} else {
+		w.coll.RemoveKeyed(o.typ, o.name)
+	}
+	if (o.name != "" && w.coll.ContainsKeyed(o.typ, o.name)) || (o.name == "" && w.coll.Contains(o.typ)) {
+		w.fail("C17", "Remove(%v,%q) left the identity registered", o.typ, o.name)
+	}
+	o.removed, o.hidden = true, true
+	r.stats["removed_identities"]++
+	left := 0
+	for _, x := range c.reg.outs {
+		if !x.hidden {
+			left++
+		}
+	}
+	if left == 0 {
+		c.reg.added = false // nothing of the registration is left
+	}
+	if rng.Intn(2) == 0 {
+		return
+	}
+	// registered anew: a plain registration of the same identity with its own constructor
+	slot := -1
+	for sl := range vpSlots {
+		if slotType(sl) == o.typ {
+			slot = sl
+		}
+	}
+	if slot < 0 {
+		return // an interface identity: replaced only through concrete slots
+	}
+	nr := &vpReg{idx: len(w.regs), life: c.reg.life, form: "plain", outs: []vpOut{{typ: o.typ, slot: slot, name: o.name}}}
+	nr.fn = w.makeConstructor(nr)
+	if o.name != "" {
+		nr.opts = append(nr.opts, Name(o.name))
+	}
+	w.regs = append(w.regs, nr)
+	lo := len(w.coll.allDescriptors)
+	err := w.coll.addService(nr.fn, nr.life, nr.opts...)
+	nr.descLo, nr.descHi = lo, len(w.coll.allDescriptors)
+	nr.descPtrs = append([]*Descriptor(nil), w.coll.allDescriptors[lo:]...)
+	nr.added = err == nil
+	if err != nil {
+		w.fail("C17", "registering the removed identity (%v,%q) anew was rejected: %v", o.typ, o.name, err)
+	}
+	r.stats["replaced_identities"]++
+}
+
 // register everything, then dump godi's own descriptors as `p desc` lines
 func (r *vpRun) register(w *vpWorld) {
 	for _, reg := range w.regs {
@@ -784,6 +884,7 @@ func (r *vpRun) register(w *vpWorld) {
 			}
 		}()
 		reg.descLo, reg.descHi = lo, len(w.coll.allDescriptors)
+		reg.descPtrs = append([]*Descriptor(nil), w.coll.allDescriptors[lo:]...)
 		reg.added = err == nil
 		if err != nil {
 			r.stats["reg_rejected"]++
@@ -792,6 +893,24 @@ func (r *vpRun) register(w *vpWorld) {
 			}
 		}
 		r.stats["reg_form:"+reg.form]++
+	}
+	r.removeAndReplace(w)
+	// the collection's three views agree (a rejected or removed registration leaves nothing behind in any of them)
+	inAll := map[*Descriptor]bool{}
+	for _, d := range w.coll.allDescriptors {
+		inAll[d] = true
+	}
+	for k, d := range w.coll.services {
+		if !inAll[d] {
+			w.fail("C17,C08", "the service map still holds %v (key %v), which is not among the descriptors Build iterates", k.Type, k.Key)
+		}
+	}
+	for k, ms := range w.coll.groups {
+		for _, d := range ms {
+			if !inAll[d] {
+				w.fail("C17,C08", "group %q of %v still holds a member that is not among the descriptors Build iterates", k.Group, k.Type)
+			}
+		}
 	}
 	// constructors number their products after the registered values that made it into the collection
 	w.nextInst = 0
@@ -811,9 +930,12 @@ func (r *vpRun) register(w *vpWorld) {
 	}
 	for i, d := range w.coll.allDescriptors {
 		var reg *vpReg
+		regK := 0
 		for _, x := range w.regs {
-			if i >= x.descLo && i < x.descHi {
-				reg = x
+			for k, p := range x.descPtrs {
+				if p == d {
+					reg, regK = x, k
+				}
 			}
 		}
 		kind := "plain"
@@ -827,13 +949,15 @@ func (r *vpRun) register(w *vpWorld) {
 		}
 		disp := 0
 		// the value stored under this descriptor: output i-descLo (aliases share output 0)
-		k := i - reg.descLo
+		k := regK
 		if k < len(reg.outs) && slotDisp(reg.outs[k].slot) && reg.form != "void" {
 			disp = 1
 		}
 		var sibs []string
 		for _, s := range d.siblings {
-			sibs = append(sibs, strconv.Itoa(index[s]))
+			if j, ok := index[s]; ok { // a sibling that was removed again is no descriptor of the provider
+				sibs = append(sibs, strconv.Itoa(j))
+			}
 		}
 		var deps []string
 		for _, dep := range d.Dependencies {
@@ -2279,6 +2403,104 @@ func (r *vpRun) reentrant(rng *rand.Rand) {
 	r.emit("p verdict", "ok")
 }
 
+// oddShapes: dependency shapes the generic generator cannot build with reflect.StructOf / MakeFunc — a
+// parameter object with an EMBEDDED dependency field, and a plain (ungrouped) dependency of slice type.
+// Monitors only (a test of these shapes, not a proof): Build's verdict against the reference verdict of the
+// four-service registry (C07/C08), and what the consumers received (C04/C07).
+type VoA struct{ id int }
+type voP struct{ id int }
+type voC struct {
+	a  *VoA
+	ps []*voP
+}
+type voInEmb struct {
+	In
+	*VoA        // embedded dependency (exported through its type name): injected like any other exported field
+	Ps   []*voP // plain dependency of slice type (no group tag)
+}
+
+func (r *vpRun) oddShapes(rng *rand.Rand) {
+	w := r.newWorld(rng)
+	lifes := []Lifetime{Singleton, Scoped, Transient}
+	lifeA, lifeC, lifeS := lifes[rng.Intn(3)], lifes[rng.Intn(3)], lifes[rng.Intn(3)]
+	regA, regS, regP := rng.Intn(4) != 0, rng.Intn(4) != 0, rng.Intn(2) == 0
+	ids := 0
+	c := w.coll
+	var err error
+	add := func(life Lifetime, fn any, opts ...AddOption) {
+		if e := c.addService(fn, life, opts...); e != nil && err == nil {
+			err = e
+		}
+	}
+	if regA {
+		add(lifeA, func() *VoA { ids++; return &VoA{ids} })
+	}
+	if regS { // the SLICE itself is the service
+		add(lifeS, func() []*voP { ids++; return []*voP{{ids}} })
+	}
+	if regP { // an element-typed service must not satisfy (or be required by) the slice dependency
+		add(Singleton, func() *voP { ids++; return &voP{ids} })
+	}
+	add(lifeC, func(in voInEmb) *voC { return &voC{a: in.VoA, ps: in.Ps} })
+	if err != nil {
+		w.fail("C17", "odd-shapes scenario: a valid registration was rejected: %v", err)
+		r.emit("p verdict", "ok")
+		return
+	}
+	// reference verdict: cycle-free by construction
+	want := "ok"
+	long := lifeC == Singleton || lifeC == Transient
+	switch {
+	case long && ((regA && lifeA == Scoped) || (regS && lifeS == Scoped)):
+		want = "lifetime"
+	case !regA || !regS:
+		want = "missing"
+	}
+	r.stats["odd_shapes"]++
+	r.stats["odd_verdict:"+want]++
+	var prov Provider
+	if guard(w, "Build", func() { prov, err = c.Build() }) {
+		r.emit("p verdict", "ok")
+		return
+	}
+	got := "ok"
+	var le *LifetimeConflictError
+	var be *BuildError
+	switch {
+	case err == nil:
+	case errors.As(err, &le):
+		got = "lifetime"
+	case errors.As(err, &be) && be.Phase == "validation" && errors.Is(err, ErrServiceNotFound):
+		got = "missing"
+	default:
+		got = "other: " + err.Error()
+	}
+	if got != want {
+		w.fail("C07,C08", "Build verdict %q for a consumer (%v) with an embedded parameter-object field (*A %v, registered=%v) and a plain slice dependency ([]*P %v, registered=%v; *P registered=%v): the registered dependency relation says %q",
+			got, lifeC, lifeA, regA, lifeS, regS, regP, want)
+	}
+	if err == nil {
+		var sc Scope
+		guard(w, "CreateScope", func() { sc, err = prov.CreateScope(nil) })
+		if err == nil && sc != nil {
+			v, e := Resolve[*voC](sc)
+			if e != nil {
+				w.fail("C08", "Build accepted the set but the consumer does not resolve: %v", e)
+			} else {
+				if v.a == nil || len(v.ps) != 1 || v.ps[0] == nil {
+					w.fail("C04", "the consumer received a=%v ps=%v (embedded field / slice dependency not injected)", v.a, v.ps)
+				}
+				if a2, e2 := Resolve[*VoA](sc); e2 == nil && lifeA != Transient && v.a != nil && lifeC != Singleton && a2 != v.a {
+					w.fail("C04,C02", "the embedded field received *A #%d, the scope resolves *A #%d", v.a.id, a2.id)
+				}
+			}
+			sc.Close()
+		}
+		prov.Close()
+	}
+	r.emit("p verdict", "ok")
+}
+
 func vpEnvInt(name string, def int) int {
 	if v := os.Getenv(name); v != "" {
 		if n, err := strconv.Atoi(v); err == nil {
@@ -2326,6 +2548,10 @@ func TestVerifCore(t *testing.T) {
 		}
 		if it%50 == 23 {
 			r.reentrant(rng)
+			continue
+		}
+		if it%50 == 37 {
+			r.oddShapes(rng)
 			continue
 		}
 		r.scenario(rng, o)
